@@ -17,7 +17,7 @@ ASSUMPTIONS = [
     "readers of a generation are cancelled and joined (unsubscribe) before the member rejoins (Generation.close waits for the functions started with gen.Start); the edge case 'generation already closed when Reader.run calls gen.Start' (unaccounted goroutines) is outside the model",
     "offsets < 2^63-1 (offset+1 does not wrap); StartOffset is FirstOffset or LastOffset (ConsumerGroupConfig.Validate)",
     "delivered-before-covered is proved for StartOffset = FirstOffset; for LastOffset it is REFUTED (theorem C03_delivered_before_covered_lastoffset_refuted, replayed on the real Reader on every run: failure key C03-lastoffset-skips-records)",
-    "session time-outs, heartbeats and back-off sleeps are environment labels, not clocks; quiescence/liveness (C03_quiescent_all_delivered) is stated, not proved: it is TESTED on the real Readers (eviction and commit-answer scenarios: a new generation is reached, every stored record is delivered, an interval-mode stash survives a rejected commit) under watchdogs of 6-8 s, each stall confirmed by one re-run alone",
+    "session time-outs, heartbeats and back-off sleeps are environment labels, not clocks; quiescence/liveness (C03_quiescent_all_delivered) is proved only in the form 'if the assignments of generation g cover the existing partitions (assignment_covers_existing, a hypothesis on the environment labels, evaluated on what the real leader computed) and every member of g has drained what it was assigned, every stored record was delivered'; that members eventually drain is TESTED on the real Readers (eviction and commit-answer scenarios: a new generation is reached, every stored record is delivered, an interval-mode stash survives a rejected commit) under watchdogs of 6-8 s, each stall confirmed by one re-run alone",
 ]
 
 KEY_LASTOFFSET = "C03-lastoffset-skips-records"
@@ -26,6 +26,22 @@ KEY_LASTOFFSET = "C03-lastoffset-skips-records"
 def classify(c):
     """A go/model disagreement: does the implementation's output itself violate C03?"""
     op, go, model = c["op"], c["go"], str(c.get("model"))
+    if op == "quiet":
+        tag = next((f for f in c["feats"].split(",") if f.startswith("missing-topic-at=")), "every subscribed topic exists")
+        if go.startswith("UNCOVERED") or model == "VIOL:assignment-covers-existing":
+            return dict(layer="property",
+                        what="quiescence: the assignments the group leader distributed in the settled generation do not cover every partition of the existing subscribed topics ("
+                             + (go.partition(":")[2] or "see the G= tokens") + " unassigned; " + tag + "): its records are never delivered (assignTopicPartitions / per-topic metadata fallback / balancer)", input=c)
+        if model == "VIOL:not-all-delivered" and go == "ok":
+            return dict(layer="property", what="quiescence: not every stored record of the existing subscribed topics was delivered to some member (" + tag + ")", input=c)
+        if go.startswith("STALLED") or go == "HANG":
+            return dict(layer="property",
+                        what="liveness (quiescence clause), multi-topic group: " + (go.partition(":")[2] or "scenario hung within the 60 s watchdog") + " (" + tag + ")"
+                             + (" — confirmed by a re-run alone with the same seed" if "confirmed-alone" in c["feats"] else ""), input=c)
+        if model.startswith("VIOL:"):
+            c2 = dict(c); c2["op"] = "hist"
+            return classify(c2)
+        return dict(layer="correspondence", what="multi-topic history: checker failed: " + model[:80], input=None)
     if op == "hist":
         once = "stalled-once-ok-alone" in c["feats"]
         if go == "HANG":
@@ -160,7 +176,7 @@ def correspondence(ctx):
     if once:
         notes.append(f"{len(once)} scenario(s) stalled once and completed normally when re-run alone with the same seed (machine load), not reported")
     ev, dn, hist = L.coverage_counts(cases, trivial_feats=TRIVIAL)
-    nh = [c for c in cases if c["op"] == "hist"]
+    nh = [c for c in cases if c["op"] in ("hist", "quiet")]
     events = sum(len(c["args"].split(" ")) - 2 for c in nh)
     return dict(evaluations=ev, distinct_nontrivial=dn, hist=hist,
                 rule="one PRNG (VERIF_SEED): step level = makeCommits, offsetStash.merge/reset, fetchOffsets+makeAssignments against a scripted coordinator "
@@ -174,7 +190,9 @@ def correspondence(ctx):
                      "sync: nil implies recorded; interval: the stash survives and a later tick records) and 6 'evict-liveness' scenarios (UnknownMemberId on heartbeat and on the JoinGroup with the stale id; "
                      "the member must reach a new generation and every stored record be delivered within 8 s; a stall is re-run once alone, three-strikes breaker) and 6 'commit-at-generation-end' scenarios "
                      "(3-6 goroutines call the synchronous CommitMessages on distinct partitions while OffsetCommit answers are delayed and the generation is ended by a rebalance notice on the heartbeat, "
-                     "an eviction or Close, 5 rounds each; every nil is compared with what the coordinator recorded); "
+                     "an eviction or Close, 5 rounds each; every nil is compared with what the coordinator recorded) and 8 'multi-topic-quiescence' histories (op quiet: 1-3 members subscribed through GroupTopics to 2-4 topics "
+                     "of which none or one — sorting first / in the middle / last — does not exist, 1-3 partitions per existing topic, run until the group settles and every record is read: the extracted "
+                     "assignment_covers_existing_b is evaluated on the assignments the real leader distributed in the settled generation and all_delivered_b on the deliveries); "
                      "the globally sequenced history is checked by the extracted C03_holds/lost_b; "
                      "'mrun' = random label sequences run on the model and checked by the same predicate; a case is non-trivial when it has a feature tag beyond the mode; "
                      f"{len(nh)} histories with {events} events in this run",
